@@ -102,7 +102,7 @@ PROPS = {
                 '[A,B] in one run; B\'s and A\'s shards\' request logs, POST bodies and scale requests are compared with the model under all '
                 'schedules; the property monitor demands equality of B-alone and B-with-A whenever the model says B is confluent. '
                 'non-trivial = B sent a target POST or requested a different scale; distinct by input',
-        'theorems': 'C19_independent C19_first_is_explorer_object C19_moved_not_fresh (+ C01/C04/C05/C07/C08 per replica)',
+        'theorems': 'C19_stage_order C19_independent C19_first_is_explorer_object C19_moved_not_fresh (+ C01/C04/C05/C07/C08 per replica)',
         'trusted_base': ['the per-replica cycle model (see C01) run once per replica; pointer sharing of explorer objects is replaced by value '
                          'semantics, justified by C19_moved_not_fresh and validated by the two-replica differential run'],
         'assumptions': ['explorer objects carry scrape count 0 and normal state (nothing in kvass increments them)',
